@@ -66,7 +66,7 @@ PROPS = {
  'C10': dict(funcs=['ModbusServer.handleTransport'] + SRV_LIFE, access='ModbusServer.'),
  'C11': dict(funcs=SRV_LIFE + SRV_SESSION + TCPT, access='ModbusServer.'),
  'C12': dict(funcs=WRAP + ['tcpTransport.ExecuteRequest', 'rtuTransport.ExecuteRequest'] + ['tcpTransport.readMBAPFrame', 'tcpTransport.readResponse', 'tcpTransport.ReadRequest', 'rtuTransport.readRTUFrame', 'udpSockWrapper.Read', 'newUDPSockWrapper', 'ModbusServer.handleTransport', 'discard'], consts=LEN_CONSTS),
- 'C13': dict(funcs=TCPT + ['ModbusClient.Open', 'ModbusClient.Close', 'newRTUTransport', 'rtuTransport.ExecuteRequest'] + ['tcpTransport.readMBAPFrame', 'tcpTransport.readResponse', 'tcpTransport.ReadRequest', 'rtuTransport.readRTUFrame', 'ModbusServer.handleTransport', 'ModbusServer.handleTCPClient', 'ModbusServer.acceptTCPClients', 'ModbusClient.Open', 'ModbusClient.Close', 'newTCPTransport', 'newRTUTransport'], consts=LEN_CONSTS),
+ 'C13': dict(funcs=TCPT + CLIENT_ALL + ['ModbusClient.Open', 'ModbusClient.Close', 'newRTUTransport', 'rtuTransport.ExecuteRequest'] + ['tcpTransport.readMBAPFrame', 'tcpTransport.readResponse', 'tcpTransport.ReadRequest', 'rtuTransport.readRTUFrame', 'ModbusServer.handleTransport', 'ModbusServer.handleTCPClient', 'ModbusServer.acceptTCPClients', 'ModbusClient.Open', 'ModbusClient.Close', 'newTCPTransport', 'newRTUTransport'], consts=LEN_CONSTS),
  'C14': dict(funcs=['ModbusServer.acceptTCPClients', 'ModbusServer.handleTransport'] + ['ModbusClient.Open', 'NewClient', 'NewServer', 'ModbusServer.startTLS', 'ModbusServer.handleTCPClient'] + [k for k in fps if k.startswith('tlsSockWrapper.')] + ['newTLSSockWrapper'], tls=True),
  'C15': dict(funcs=['ModbusServer.handleTransport'] + ['ModbusServer.extractRole', 'ModbusServer.startTLS', 'ModbusServer.handleTCPClient', 'var.modbusRoleOID']),
  'C16': dict(funcs=['NewClient', 'NewServer', 'ModbusClient.Open', 'ModbusClient.SetEncoding', 'newRTUTransport', 'serialPortWrapper.Open', 'newSerialPortWrapper', 'ModbusServer.Start'],
